@@ -195,14 +195,26 @@ int main(int argc, char **argv)
     setenv("HWLOC_SYNTHETIC_VERBOSE", "1", 1); dup2(1, 2); setvbuf(stdout, NULL, _IOLBF, 1 << 16);
   } else setvbuf(stdout, NULL, _IOFBF, 1 << 16);
   while (fgets(line, sizeof(line), stdin)) {
-    char id[64], mode[8]; int off = 0; size_t n, i; char *hex, *desc; hwloc_topology_t t; int rc, e;
-    if (sscanf(line, "%63s %7s %n", id, mode, &off) < 2) continue;
+    char id[64], mode[64]; int off = 0; size_t n, i; char *hex, *desc; hwloc_topology_t t; int rc, e;
+    if (sscanf(line, "%63s %63s %n", id, mode, &off) < 2) continue;
     hex = line + off; n = strcspn(hex, "\r\n ") / 2;
     desc = malloc(n + 1);
     for (i = 0; i < n; i++) desc[i] = (char)(hexv(hex[2*i]) * 16 + hexv(hex[2*i+1]));
     desc[n] = 0;
     printf("CASE %s\n", id); fflush(stdout);
-    hwloc_topology_init(&t); set_filters(t);
+    hwloc_topology_init(&t);
+    /* type filters: "l" / "lA" = instruction caches and MemCache kept (set_filters); "lD" = the library defaults;
+     * then optional N<t>.<t>... (KEEP_NONE) and S<t>.<t>... (KEEP_STRUCTURE), e.g. lDN10.6S1 */
+    if (mode[0] == 'l' && mode[1] == 'D') ; else set_filters(t);
+    if (mode[0] == 'l' && mode[1]) {
+      const char *q = mode + 2; enum hwloc_type_filter_e f = HWLOC_TYPE_FILTER_KEEP_NONE;
+      while (*q) {
+        if (*q == 'N') { f = HWLOC_TYPE_FILTER_KEEP_NONE; q++; }
+        else if (*q == 'S') { f = HWLOC_TYPE_FILTER_KEEP_STRUCTURE; q++; }
+        else if (*q == '.') q++;
+        else { char *end; long ty = strtol(q, &end, 10); if (end == q) break; hwloc_topology_set_type_filter(t, (hwloc_obj_type_t)ty, f); q = end; }
+      }
+    }
     errno = 0;
     if (mode[0] == 'e') {
       /* the documented alternative: HWLOC_COMPONENTS=synthetic + HWLOC_SYNTHETIC=<description>, no set_synthetic() */
@@ -225,7 +237,7 @@ int main(int argc, char **argv)
     fflush(stdout);
     if (rc == 0 && mode[0] == 'l') {
       if (hwloc_topology_load(t) < 0) printf("load-fails errno=%d\n", errno);
-      else { printf("loaded\n"); print_objects(t); fflush(stdout); roundtrip(t); export_errors(t); }
+      else { printf("loaded\n"); print_objects(t); fflush(stdout); if (!mode[1]) { roundtrip(t); export_errors(t); } }
     }
     hwloc_topology_destroy(t);
     free(desc);
